@@ -323,6 +323,12 @@ class Evaluator:
                 return l | r
             if op == 'Mul':
                 return l * r
+            if op == 'Shl':
+                return (l << r) & 0xFFFFFFFFFFFFFFFF
+            if op == 'Shr':
+                return l >> r
+            if op == 'BitXor':
+                return l ^ r
         raise Unanalysable('binary %s on %r, %r' % (op, l, r), e)
 
     def truth(self, v, e):
